@@ -157,11 +157,11 @@ def _alarm(*a):
     raise Hang()
 
 
-def guarded(f, *a):
+def guarded(f, *a, limit=3.0):
     """run one case on the real code under a 3 s watchdog (a hang is an observation)"""
     import signal
     signal.signal(signal.SIGALRM, _alarm)
-    signal.setitimer(signal.ITIMER_REAL, 3.0)
+    signal.setitimer(signal.ITIMER_REAL, limit)
     try:
         return f(*a)
     finally:
@@ -521,14 +521,16 @@ def abnormal(impl_res):
     return None
 
 
-def judge(ctx, sync, case, impl, spec_out, model_out, verdict_step, src=None):
+def judge(ctx, sync, case, impl, spec_out, model_out, verdict_step, src=None, tag=None, extra=None):
     """returns 'cursor' (binding violation found), 'model' (correspondence only) or None.
     [verdict_step] is the extracted oracle's answer on the implementation's observation:
     the first step that is not what the flat cursor gives ([] = all steps fine)."""
-    which = 'sync' if sync else 'async'
+    which = tag or ('sync' if sync else 'async')
     spec_res = [r_result(o[0]) for o in spec_out]
     impl_res = impl if sync else [o[0] for o in impl]
     detail = {'reader': which, 'case': jsonable(case)}
+    if extra and (abnormal(impl_res) or verdict_step or (src is not None and src.over is not None)):
+        detail.update(extra(impl_res))
     verdict = None
     ab = abnormal(impl_res)
     if ab or verdict_step:
@@ -546,8 +548,8 @@ def judge(ctx, sync, case, impl, spec_out, model_out, verdict_step, src=None):
         ctx.violation('%s-reader-%s' % (which, kind), d, key='%s-cursor-%s' % (which, kind))
     if sync and src is not None and src.over is not None:
         verdict = 'cursor'
-        ctx.violation('sync-reader-requests-beyond-declared-length',
-                      dict(detail, requested=src.over[0], budget_left=src.over[1]), key='sync-over')
+        ctx.violation('%s-reader-requests-beyond-declared-length' % which,
+                      dict(detail, requested=src.over[0], budget_left=src.over[1]), key='%s-over' % which)
     if sync and src is not None and src.odd is not None:
         ctx.advisory.append({'sync source asked for a non-positive size': src.odd, 'case': jsonable(case)})
     if verdict is None:
@@ -589,13 +591,184 @@ def run_cases(ctx, mods, model, cases, sync, tag):
             ctx.count('op:' + (h[1][0] if h[0] == 'op' else h[0]))
         if v:
             ctx.count('disagree-' + v)
+    if sync and mods.get('CR') is not None and not (ctx.tier == 'quick' and tag == 'exhaustive'):
+        run_cy_cases(ctx, mods, model, cases, spec_outs, model_outs, tag)
+
+
+class SrcInfo:
+    def __init__(self, over, odd):
+        self.over, self.odd = over, odd
+
+
+def cy_worker(argv):
+    """child process: runs the built Cython twin on pickled cases, one result line per case.  A hang
+    inside the C code cannot be interrupted by a Python signal handler, so the parent kills us."""
+    import base64
+    import pickle
+    import sys
+    stage, path, start = argv[0], argv[1], int(argv[2])
+    sys.path.insert(0, stage)
+    mods = load_mods()
+    mods['SR'] = mods['CR']
+    with open(path, 'rb') as fh:
+        cases = pickle.load(fh)
+    out = sys.stdout
+    for i in range(start, len(cases)):
+        out.write('S %d\n' % i)
+        out.flush()
+        outs, src = run_sync(mods, cases[i])
+        out.write('R ' + base64.b64encode(pickle.dumps((i, outs, src.over, src.odd))).decode() + '\n')
+        out.flush()
+
+
+def run_cy(ctx, cases):
+    """observations of the Cython twin for all cases; a case on which the worker stalls is a hang"""
+    import base64
+    import os
+    import pickle
+    import select
+    import subprocess
+    import sys
+    import tempfile
+    fd, path = tempfile.mkstemp(prefix='c14-cy.', suffix='.pkl')
+    with os.fdopen(fd, 'wb') as fh:
+        pickle.dump(cases, fh)
+    results = [None] * len(cases)
+    start = 0
+    try:
+        while start < len(cases):
+            proc = subprocess.Popen([sys.executable, '-u', os.path.abspath(__file__), '--cy-worker', ctx.stage, path,
+                                     str(start)], stdout=subprocess.PIPE, stderr=subprocess.DEVNULL,
+                                    env=dict(os.environ, VERIF_REPO=common.REPO))
+            current, buf = start, b''
+            stalled = False
+            while True:
+                r, _, _ = select.select([proc.stdout], [], [], 2.5)
+                if not r:
+                    stalled = True
+                    break
+                chunk = os.read(proc.stdout.fileno(), 1 << 20)
+                if not chunk:
+                    break
+                buf += chunk
+                while b'\n' in buf:
+                    line, buf = buf.split(b'\n', 1)
+                    if line.startswith(b'S '):
+                        current = int(line[2:])
+                    elif line.startswith(b'R '):
+                        i, outs, over, odd = pickle.loads(base64.b64decode(line[2:]))
+                        results[i] = (outs, SrcInfo(over, odd))
+                        current = i + 1
+            proc.kill()
+            proc.wait()
+            if stalled or results[current:current + 1] == [None]:
+                if current < len(cases) and results[current] is None:
+                    results[current] = ([('hang',)] if stalled else [('crash', 'worker-died', '')], SrcInfo(None, None))
+                start = current + 1
+            else:
+                start = current
+            if all(r is not None for r in results):
+                break
+    finally:
+        os.unlink(path)
+    return results
+
+
+_PREFIX = {}
+
+
+def prefix_twin(mods):
+    """falcon.util.reader.BufferedReader with _read as it was BEFORE fix 1d44cb7 (position may run past a
+    short source): the source the shipped binary was built from.  Used only to recognise, on a case where
+    the binary disagrees with the cursor, whether it is exactly that already-fixed defect."""
+    if 'cls' not in _PREFIX:
+        class PreFix(mods['SR']):
+            def _read(self, size):
+                if size <= self._buffer_len - self._buffer_pos:
+                    if size == self._buffer_len and self._buffer_pos == 0:
+                        result = self._buffer
+                        self._buffer_len = 0
+                        self._buffer = b''
+                        return result
+                    self._buffer_pos += size
+                    return self._buffer[self._buffer_pos - size:self._buffer_pos]
+                if self._buffer_len == 0 and size >= self._chunk_size:
+                    return self._perform_read(size)
+                read_size = size - (self._buffer_len - self._buffer_pos)
+                result = self._buffer[self._buffer_pos:]
+                if read_size >= self._chunk_size:
+                    self._buffer_len = 0
+                    self._buffer_pos = 0
+                    self._buffer = b''
+                    return result + self._perform_read(read_size)
+                self._buffer = self._perform_read(self._chunk_size)
+                self._buffer_len = len(self._buffer)
+                self._buffer_pos = read_size
+                return result + self._buffer[:read_size]
+        _PREFIX['cls'] = PreFix
+    return _PREFIX['cls']
+
+
+def run_cy_cases(ctx, mods, model, cases, spec_outs, model_outs, tag):
+    ctx.cov['cyutil_reader'] = 'built twin found in $VERIF_REPO and run through the sync correspondence'
+    impls = run_cy(ctx, cases)
+    obs = [im[0] for im in impls]
+    ok = [abnormal(o) is None for o in obs]
+    verdicts = iter(model.run_many([oracle_wire(c, True, o) for c, o, k in zip(cases, obs, ok) if k]))
+    pre_mods = dict(mods, SR=prefix_twin(mods))
+
+    def classify_for(case):
+        def classify(impl_res):
+            # is the binary's observation exactly that of the Python twin before fix 1d44cb7 on a source
+            # that ends before the declared length?
+            short = case['maxlen'] > len(case['data'])
+            same = False
+            if short:
+                try:
+                    pre, _ = guarded(run_sync, pre_mods, case, limit=1.0)
+                except Exception:  # noqa: BLE001
+                    pre = None
+                # a hang inside the C code is only known for the case as a whole
+                same = pre == impl_res or (impl_res == [('hang',)] and bool(pre) and pre[-1] == ('hang',))
+            return {'implementation': 'cyutil', 'source_shorter_than_declared_length': short,
+                    'same_as_python_twin_before_fix_1d44cb7': same}
+        return classify
+
+    for c, s, m, im, o, k in zip(cases, spec_outs, model_outs, impls, obs, ok):
+        vstep = next(verdicts) if k else None
+        v = judge(ctx, True, c, o, s, m, vstep, im[1], tag='cyutil', extra=classify_for(c))
+        ctx.note_case(('cy', tag, repr(sorted(c.items()))), nontrivial(c, o))
+        ctx.count('cyutil-%s' % tag)
+        if v:
+            ctx.count('disagree-cyutil-' + v)
+
+
+def load_cy_reader():
+    """The Cython twin falcon/cyutil/reader (the BufferedReader falcon.util exports when it is importable)
+    cannot be rebuilt offline; when a built artifact sits in $VERIF_REPO it is loaded stand-alone (the
+    staged copy excludes *.so) and run through the same sync correspondence and cursor oracle."""
+    import glob
+    import importlib.machinery
+    import importlib.util
+    import os
+    paths = sorted(glob.glob(os.path.join(common.REPO, 'falcon', 'cyutil', 'reader.*.so')))
+    if not paths:
+        return None
+    try:
+        loader = importlib.machinery.ExtensionFileLoader('falcon.cyutil.reader', paths[0])
+        spec = importlib.util.spec_from_file_location('falcon.cyutil.reader', paths[0], loader=loader)
+        m = importlib.util.module_from_spec(spec)
+        loader.exec_module(m)
+        return m.BufferedReader
+    except Exception:  # noqa: BLE001 - built for another interpreter etc.
+        return None
 
 
 def load_mods():
     from falcon.util.reader import BufferedReader as SR
     from falcon.asgi.reader import BufferedReader as AR
     from falcon.errors import DelimiterError
-    return {'SR': SR, 'AR': AR, 'DelimiterError': DelimiterError}
+    return {'SR': SR, 'AR': AR, 'DelimiterError': DelimiterError, 'CR': load_cy_reader()}
 
 
 def main(ctx):
@@ -655,10 +828,18 @@ def replay(ctx, obj):
         return main(ctx)
     case = unjson(obj['case'])
     case['hist'] = [tuple([h[0], tuple(h[1])] if h[0] == 'op' else h) for h in case['hist']]
-    sync = obj.get('reader') == 'sync'
+    sync = obj.get('reader') in ('sync', 'cyutil')
+    if obj.get('reader') == 'sync':
+        mods['CR'] = None
     run_cases(ctx, mods, model, [case], sync, 'replay')
     ctx.note_case('replay-pad', True)
     ctx.sample({'replayed': obj.get('_file') or 'replay', 'reader': obj.get('reader')})
     if not ctx.replay:
         return
     flush_corr(ctx)
+
+
+if __name__ == '__main__':
+    import sys
+    if len(sys.argv) > 1 and sys.argv[1] == '--cy-worker':
+        cy_worker(sys.argv[2:])
